@@ -294,6 +294,29 @@ def _(n, T):
             F("both", "int", [P("o", "ptr_out", "int"), P("a", "val", "int"), P("q", "ptr_out", "double")], cls=c, fid=c + "#both")]
 
 
+@shape("ptr_res_scalar", types=["int", "double"], wraps=("c", "fortran"), doc="pointers.yaml returnIntScalar (+deref(scalar))")
+def _(n, T):
+    return [F(n, {"kind": "ptr_scalar", "T": T}, [P("a", "val", "int")])]
+
+
+@shape("extern_c", langs=("c++",), wraps=("c", "fortran"), doc="docs/reference.rst option C_extern_C (library function already has C linkage)")
+def _(n, T):
+    return [F(n + "a", "int", [P("a", "val", "int"), P("b", "val", "double")], extern_c=True),
+            F(n + "p", {"kind": "ptr_scalar", "T": "int"}, [P("a", "val", "int")], extern_c=True),
+            F(n + "s", "int", [P("s", "cstr_in")], extern_c=True)]
+
+
+@shape("class_const", langs=("c++",), wraps=("c",), doc="docs/classes.rst: const and non-const member functions, an overload pair that differs only in const, a const method declared first")
+def _(n, T):
+    c = n + "_C"
+    return [F("peek", "int", [], cls=c, const=True, fid=c + "#peek"),
+            F("poke", "int", [P("a", "val", "int")], cls=c, fid=c + "#poke"),
+            F("which", "int", [], cls=c, fid=c + "#which_nonconst"),
+            F("which", "int", [], cls=c, const=True, fid=c + "#which_const"),
+            F(c, "void", [], cls=c, ctor=True, fid=c + "#ctor0"),
+            F("~", "void", [], cls=c, dtor=True, fid=c + "#dtor", dtor_name="delete")]
+
+
 def instances(lang, wraps=None, need=None):
     out = []
     for s in SHAPES.values():
@@ -429,9 +452,13 @@ def assign_names(lib):
             for t in insts:
                 tsfx = ("_" + t.replace(" ", "_")) if t else ""
                 gens = f.get("generic") or [None]
+                # option C_extern_C: a library function that already has C linkage and needs no conversion is its
+                # own C API (no wrapper is generated; Fortran binds to it directly)
+                direct = (f.get("extern_c") and lib["language"] == "c++" and f["ret"]["kind"] in ("val", "void")
+                          and all(p["kind"] in ("val", "cstr_in") for p in f["params"]))
                 f["variants"].append({
                     "nparams": v["nparams"], "template": t,
-                    "c_name": prefix + scope + under + v["suffix"] + tsfx,
+                    "c_name": f["name"] if direct else prefix + scope + under + v["suffix"] + tsfx,
                     "f_specific": (scope.lower() + under + v["suffix"] + tsfx).lower(),
                     "f_generic": (cls.lower() if f.get("ctor") else under) if True else None,
                     "suffix": v["suffix"] + tsfx,
